@@ -1,35 +1,68 @@
-"""State left over between calls: a long-lived middleware instance must behave, on every library of a
-sequence, exactly like a fresh instance (the properties quantify over libraries, not over 'first call
-on a new object').  Sequences are run forwards and backwards so that each input is preceded by
-different ones."""
-from .canon import canon
+"""State left over between calls, including calls that fail.
+
+A long-lived middleware instance must behave, on every library of a sequence, exactly like a fresh instance (the
+properties quantify over libraries, not over 'first call on a new object').  Sequences are run forwards and
+backwards so that each input is preceded by different ones; `poison` inputs (data on which the call may well
+raise: odd value types, corrupt metadata, unknown block classes) are interleaved, because cleanup that is
+skipped on an error path only shows in the NEXT call.  `judge(snapshot, inp, out)` may add the property's own
+oracle for the long-lived instance (e.g. copy mode still respected)."""
+from .canon import alias, canon, describe
 
 
-def run(make, inputs, acc, label, case_of=None, also_process_wide=True):
-    """make() -> fresh middleware; inputs: list of zero-argument factories of fresh libraries."""
-    orders = [list(range(len(inputs))), list(range(len(inputs)))[::-1]]
+def copy_judge(snap, lib, out):
+    """The oracle of C07 for one call: input equal to its snapshot, nothing mutable shared with the output."""
+    if canon(lib) != snap:
+        return ("leaves_input_unchanged", "the input library changed")
+    al = alias(lib, out)
+    if al:
+        return ("shares_nothing_with_input", [describe(o) for o in al[:3]])
+    return None
+
+
+def run(make, inputs, acc, label, case_of=None, poison=(), judge=None):
+    """make() -> fresh middleware; inputs / poison: lists of zero-argument factories of fresh libraries."""
+    n = len(inputs)
+    orders = [list(range(n)), list(range(n))[::-1]]
     for oi, order in enumerate(orders):
         inst = make()
-        for n, i in enumerate(order):
+        seq = []
+        for k, i in enumerate(order):
+            seq.append(("in", i))
+            if poison:
+                seq.append(("poison", (k + oi) % len(poison)))
+        for pos, (kind, i) in enumerate(seq):
+            mk = inputs[i] if kind == "in" else poison[i]
             acc.trace(2)
-            acc.case(nontrivial_key=("leak", label, oi, n))
+            acc.case(nontrivial_key=("leak", label, oi, pos))
+            lib = mk()
+            snap = canon(lib) if judge is not None else None
             try:
-                a = canon(inst.transform(inputs[i]()))
+                out = inst.transform(lib)
+                a = canon(out)
             except Exception as e:
+                out = None
                 a = ("raised", type(e).__name__)
+            if kind == "poison":
+                continue  # whatever happens on hostile data; what matters is the calls after it
             try:
-                b = canon(make().transform(inputs[i]()))
+                b = canon(make().transform(mk()))
             except Exception as e:
                 b = ("raised", type(e).__name__)
             acc.step(("leak", label, i), "long-lived", hash(a))
+            case = {"leak": label, "order": "forward" if oi == 0 else "backward", "position": pos, "input": case_of(i) if case_of else i, "after_failing_calls": bool(poison)}
             if a != b:
                 acc.violation(
                     {"oracle": "reused_instance_equals_fresh", "middleware": label},
-                    {
-                        "case": {"leak": label, "order": "forward" if oi == 0 else "backward", "position": n, "input": case_of(i) if case_of else i},
-                        "observed": repr(a)[:400],
-                        "expected": repr(b)[:400],
-                    },
-                    size=n,
+                    {"case": case, "observed": repr(a)[:400], "expected": repr(b)[:400]},
+                    size=pos,
                 )
                 break
+            if judge is not None and out is not None:
+                bad = judge(snap, lib, out)
+                if bad:
+                    acc.violation(
+                        {"oracle": "reused_instance_" + bad[0], "middleware": label},
+                        {"case": case, "observed": bad[1], "expected": "as for a fresh instance"},
+                        size=pos,
+                    )
+                    break
